@@ -455,9 +455,14 @@ class Printer:
     canonical conservative spelling."""
 
     def __init__(self, rng=None, posix=False, allow_raw_high=True):
-        self.rng = rng
+        # choices are derived from (seed, node) rather than from a running stream, so that
+        # deleting or simplifying one rule leaves the spelling of the others unchanged
+        # (needed for delta debugging)
+        self.seed = rng.u64() if rng is not None else None
+        self.rng = None
         self.posix = posix
         self.allow_raw_high = allow_raw_high
+        self.oneline = False
 
     def _pick(self, n):
         return self.rng.below(n) if self.rng else 0
@@ -543,6 +548,15 @@ class Printer:
 
     def toks(self, node, xmode=False, top=True):
         """Token list for a node in concatenation context."""
+        saved = self.rng
+        if self.seed is not None:
+            self.rng = util.Rng(self.seed, repr(node))
+        try:
+            return self._toks(node, xmode, top)
+        finally:
+            self.rng = saved
+
+    def _toks(self, node, xmode=False, top=True):
         k = node[0]
         if k == "chr":
             return [self.chr_top(node[1])]
@@ -619,7 +633,8 @@ class Printer:
             inner = self.toks(node[1], nx, False)
             if nx:
                 inner = self.sprinkle(inner)
-            return [head] + inner + [")"]
+            # one token: an enclosing (?x: ) group must not put blanks inside a (?-x: ) one
+            return [head + "".join(inner) + ")"]
         if k == "ref":
             return ["{%s}" % node[1]]
         raise ValueError(node)
@@ -632,6 +647,8 @@ class Printer:
         for i, t in enumerate(toks):
             if self.rng.chance(30):
                 w = self.rng.choice([" ", "  ", "\t", " /* c */ ", " /* a b\n   c */ "])
+                if self.oneline:
+                    w = w.replace("\n", " ")
                 out.append(w)
             out.append(t)
         if self.rng.chance(20):
